@@ -160,12 +160,31 @@ theorem insert_record_sorted (p : Probe) (r : Rec) (h : sortedByKey p.records = 
     sortedByKey (p.insertRecord r).records = true ∧ (p.insertRecord r).records.Perm (r :: p.records) :=
   ⟨insertSorted_sorted r p.records h, insertSorted_perm r p.records⟩
 
-/-- A probe that started at `s` is finished from `s + 750` ms on; a probe query sent at `now`
-    schedules the next one for `now + 250`. -/
+/-- A probe is finished when it is 750 ms old AND its three queries have been sent (`next_send`
+    has moved on to `start_time + 750`, repair of D31) - so a new probe, which has sent nothing,
+    is never finished, however late the loop comes; its first query is due at its start; a probe
+    query sent at `now` schedules the next one for `now + 250` and moves the start by the
+    lateness of this one. -/
 theorem probe_times (s now : Nat) :
-    ((Probe.new s).expired now = true ↔ s + 750 ≤ now) ∧ (Probe.new s).next = s ∧
-    ((Probe.new s).updateNextSend now).next = now + 250 := by
-  simp [Probe.new, Probe.expired, Probe.updateNextSend]
+    (∀ p : Probe, p.expired now = true ↔ p.start + 750 ≤ now ∧ p.start + 750 ≤ p.next) ∧
+    (Probe.new s).expired now = false ∧ (Probe.new s).next = s ∧
+    ((Probe.new s).updateNextSend now).next = now + 250 ∧
+    ((Probe.new s).updateNextSend now).start = s + (now - s) := by
+  refine ⟨fun p => by simp [Probe.expired], ?_, rfl, rfl, rfl⟩
+  simp [Probe.new, Probe.expired]
+
+/-- the invariant behind "three queries": after `k ≤ 3` queries `next_send = start_time + 250 k`,
+    whenever they were sent; a due probe in that state ends exactly when `k = 3` -/
+theorem probe_progress (p : Probe) (k now : Nat) (h : p.next = p.start + 250 * k) (hk : k ≤ 3) (hdue : now ≥ p.next) :
+    (p.expired now = true ↔ k = 3) ∧
+    (p.updateNextSend now).next = (p.updateNextSend now).start + 250 * (k + 1) := by
+  constructor
+  · simp only [Probe.expired, Bool.and_eq_true, decide_eq_true_eq]
+    constructor
+    · intro ⟨_, h2⟩; omega
+    · intro e; subst e; omega
+  · simp only [Probe.updateNextSend]
+    omega
 
 /-! ## Renaming -/
 
